@@ -204,6 +204,11 @@ fn one_case(seed: u64, i: u64) -> CaseOut {
         ])
     };
     let mut diff: Option<(String, String)> = None;
+    if matches!(&sess.obs.end, Err(a) if a.is_rti_todo()) || matches!(&plain.end, Err(a) if a.is_rti_todo()) {
+        // the program executed RTI (documented as unimplemented): outside every claim
+        out.class("discarded_rti");
+        return out;
+    }
     if let Err(a @ Abort::Panic { .. }) = &sess.obs.end {
         diff = Some((format!("panic/{}", a.panic_file()), a.short()));
     } else if sess.obs.end != plain.end {
@@ -233,7 +238,7 @@ fn one_case(seed: u64, i: u64) -> CaseOut {
             for (a, w) in &f.mem_diff {
                 mem[*a as usize] = *w;
             }
-            if crate::util::hash_words(&mem[..]) != plain.fs.mem_hash {
+            if !cfg!(miri) && crate::util::hash_words(&mem[..]) != plain.fs.mem_hash {
                 diff = Some(("memory".into(), "final memory differs from the plain run".into()));
             }
         }
